@@ -5,6 +5,12 @@
 //! (a) consuming-iterator HISTORIES over {next, next_back, len, size_hint, {:?}, ==, hash, drop-now} for all
 //!     13 vector types: an exhaustive (cursor state x interleaving x consumer policy x operation) table per
 //!     type plus random histories. Model = a deque of ids.
+//!     `adapters.rs` widens this to the WHOLE iterator surface: every other Iterator / DoubleEndedIterator /
+//!     ExactSizeIterator method and std adapter (nth, nth_back, last, count, fold, rfold, skip, step_by, take,
+//!     rev, chain, zip, flatten, peekable, collect, sum, max, ..; through by_ref() and by value; arguments
+//!     below / at / beyond the remaining length) judged by the std defaults run over a deque model, and to
+//!     PAIRS of iterators in independently chosen cursor states for the binary operations (==, !=, hash
+//!     contract, Iterator::eq/cmp/.., zip, chain, swap) with value-shifted contents.
 //! (b) CONVERSIONS (arrays, tuples, iterators, map/zip, matrix arrays in both orders and both layouts,
 //!     transposition, layout change): id at output position k = id the documentation places there; nothing
 //!     cloned, dropped or even observed in transit; nothing leaked.
@@ -1108,13 +1114,17 @@ pub fn property() -> Property {
     per_mat!(cm::Mat4<Tracked>, 4, 16, "conv-col-mat4", "views-col-mat4");
     Property {
         id: "C18",
-        rule: "iterator cases are histories over {next, next_back, len, size_hint, {:?}, ==twin, hash, drop-now} with a keep/drop decision of the consumer for every yielded element: the table enumerates every (start,end) x {front-first, back-first, alternating} x 3 consumer policies x 8 operations for each of the 13 vector types, random histories come from proptest byte tapes; a history is non-trivial when it pulls from both ends and the iterator is dropped with >= 1 element still inside, or when it formats/compares/hashes after >= 1 pull; conversion and view cases (finite, fully enumerated) are all non-trivial: every element is a distinct Tracked id; distinct = distinct index / consumed tape prefix per check",
+        rule: "iterator cases are histories over {next, next_back, len, size_hint, {:?}, ==twin, hash, drop-now} with a keep/drop decision of the consumer for every yielded element: the table enumerates every (start,end) x {front-first, back-first, alternating} x 3 consumer policies x 8 operations for each of the 13 vector types, random histories come from proptest byte tapes; a history is non-trivial when it pulls from both ends and the iterator is dropped with >= 1 element still inside, or when it formats/compares/hashes after >= 1 pull; conversion and view cases (finite, fully enumerated) are all non-trivial: every element is a distinct Tracked id; distinct = distinct index / consumed tape prefix per check; adapters-table / pairs-adapters / adapters-random cases are histories over the extended alphabet (every Iterator / DoubleEndedIterator / ExactSizeIterator method and std adapter, by_ref and by value, argument classes 0, 1, rem/2, rem-1, rem, rem+1, rem+7, usize::MAX relative to the remaining length at that moment; for chain/flatten also relative to both lengths): adapters-table enumerates cursor state x (operation, argument class) (all states for n <= 16, a seeded sample for n = 32, 64), pairs-observers enumerates state pair x 4 content modes x {==/!=, hash} (all pairs for n <= 8), pairs-adapters state pair x two-operand (operation, argument class) (all pairs for n <= 4); such a case is non-trivial when it executes at least one operation other than next / next_back / len / size_hint, or a pair observer after at least one pull",
         assumptions: &[
             "rustc, std (arrays, Vec, slices, DefaultHasher) and the proptest runner/shrinker are trusted",
             "the oracle is the thread-local ownership ledger of c18::ledger::Tracked (a plain {id,val} struct, so that reading a stale slot is harmless for the harness) plus a deque model of the iterator; neither calls vek",
             "the consumer marks every element it receives by value as yielded; every other drop is attributed to the container/iterator",
             "vectors and matrices are built and read through their public fields (struct literals, m.rows.<i>.<j>, m.cols.<j>.<i>)",
             "a correct Debug/PartialEq/Hash of IntoIter may only touch live elements; additionally asserted: no panic, an iterator equals its identically-driven twin, equal iterators hash equally; format and hash value are free",
+            "the extended iterator checks run the same generic std code (c18::adapters::partial / finish) on vek's iterator and on a model that implements only next, next_back and an exact size_hint over a VecDeque; a correct override of any other method is observationally equal to the std default, so returned values, hand-out order, remaining lengths and which elements were dropped inside the call must agree (in particular nth(n) / nth_back(n) with n >= len() consume everything and return None, as the std docs of nth and advance_by state)",
+            "iterator == / != are judged against the remaining VALUE sequences (vek: 'Debug, PartialEq and Hash only consider the elements that weren't yielded'): equal iff same remaining length and pairwise equal values, whatever the cursor positions; != is the negation; both operand orders agree; equal iterators hash equally. Nothing is asserted about the hash value, about hashes of unequal iterators, or about the text of {:?}",
+            "std's StepBy::nth needs ~2^64 loop rounds when both the step and n are usize::MAX (overflow resolution loop in std, independent of vek): for that one adapter both factors are capped at 2^20; nth / nth_back / skip / take / step_by themselves are exercised with usize::MAX",
+            "panics of user closures / element Drop inside iterator methods are not exercised (the property does not speak about unwinding); advance_by, next_chunk, array_chunks, is_empty and the other unstable iterator methods are not callable on the pinned stable toolchain and are reached only through the stable methods built on them",
             "FromIterator fills the tail of a short source with Default values (T: Default bound; from_slice doc: elements are initialized to their default values) and never stores surplus elements",
         ],
         checks,
